@@ -72,6 +72,29 @@ def strategy(draw):
                 member_range=draw(st.one_of(st.none(), st.tuples(st.integers(0, 5), st.sampled_from(["upper-half", "lower-half", "narrow", "second-bump", "second-bump"])))))
 
 
+BIG = {"quick": 8, "thorough": 64}
+
+
+@st.composite
+def strategy_big(draw):
+    """Results of long deployments: 100 .. 800 windows (per azimuth, at most 3 azimuths) with seeded accept masks."""
+    case = draw(strategy().filter(lambda c: c["kind"] != "diffuse_field" and c["func"] != "recordings"))
+    naz = min(len(case["groups"]), 3)
+    nwin = draw(gen.big_size(100, 800))
+    g = np.random.Generator(np.random.PCG64(draw(gen.seeds32)))
+    case["groups"] = case["groups"][:naz]
+    case["azimuths"] = case["azimuths"][:naz]
+    masks = []
+    for grp in case["groups"]:
+        grp["nwin"] = nwin
+        m = (g.random(nwin) > 0.2).tolist()
+        masks.append(m)
+    case["masks"] = masks
+    case["pmasks"] = [list(m) for m in masks]
+    case["big"] = True
+    return case
+
+
 def _build(hv, case):
     f = np.array(case["f"], dtype=float)
     groups = [c06.expand_group(g, f) for g in case["groups"]]
@@ -297,7 +320,7 @@ def check_case(case):
     import hvsrpy.postprocessing as pp
     obj, members, f = _build(hv, case)
     kind, func = case["kind"], case["func"]
-    labels = [func, kind] + (["member-refined-alone"] if case.get("member_range") and kind == "azimuthal" and len(members) >= 2 else [])
+    labels = [func, kind] + (["big-%d00-windows" % (len(case["masks"][0]) // 100)] if case.get("big") else []) + (["member-refined-alone"] if case.get("member_range") and kind == "azimuthal" and len(members) >= 2 else [])
     opts = case["opts"]
     nwin = members[0].n_curves if members else 1
     g = np.random.Generator(np.random.PCG64(case["groups"][0]["seed"]))
